@@ -132,3 +132,10 @@ Proof.
   unfold method_from_jwk. destruct (jwk_is_public k) eqn:E; [|discriminate].
   intros H; inversion H; subst. split; [reflexivity|]. apply is_public_iff. exact E.
 Qed.
+
+(* known finding K_params_mut: a whole-value assignment through params_mut() breaks the agreement of kty and parameter family,
+   and a following checked setter (set_params of the declared family) restores it *)
+Theorem params_mut_assign_refuted : exists k p, jwk_coherent k = true /\ jwk_coherent (jwk_params_mut_assign k p) = false.
+Proof. exists (jwk_new KOkp), (POct 1013). split; reflexivity. Qed.
+Theorem params_mut_assign_same_family k p : j_kty k = params_kty p -> jwk_coherent (jwk_params_mut_assign k p) = true.
+Proof. unfold jwk_coherent, jwk_params_mut_assign, jwk_with_params. cbn. intros ->. destruct (params_kty p); reflexivity. Qed.
